@@ -32,6 +32,8 @@ Lemma sh_set_other w w' x s : w <> w' -> sh w' (set_sh w x s) = sh w' s.
 Proof. destruct w, w'; intros H; try reflexivity; congruence. Qed.
 Lemma sstamp_set w x s : sstamp (set_sh w x s) = sstamp s.
 Proof. destruct w; reflexivity. Qed.
+Lemma sh_set_att w b w' s : sh w' (set_att w b s) = sh w' s.
+Proof. destruct w, w'; reflexivity. Qed.
 Lemma set_sh_id w s : set_sh w (sh w s) s = s.
 Proof. destruct w, s; reflexivity. Qed.
 
@@ -96,6 +98,8 @@ Proof.
     destruct (Bool.bool_dec w0 w) as [->|Hn]; [rewrite sh_set_same; reflexivity | rewrite sh_set_other by exact Hn; reflexivity].
   - destruct (sstamp s); cbn [fst]; destruct w; reflexivity.
   - destruct w; reflexivity.
+  - cbn [fst]. rewrite sh_set_att. reflexivity.
+  - cbn [fst]. rewrite sh_set_att. reflexivity.
 Qed.
 
 (* frame: an operation on one share leaves the other share exactly as it was *)
@@ -116,6 +120,10 @@ Proof.
   - destruct (deck (sh w s)); cbn [fst]; [reflexivity|apply sh_set_other; exact Hn].
   - destruct e; cbn [fst]; [apply sh_set_other; exact Hn|reflexivity].
   - destruct (deck (sh w s)); cbn [fst]; [reflexivity|apply sh_set_other; exact Hn].
+  - cbn [fst]. apply sh_set_att.
+  - cbn [fst]. apply sh_set_att.
+  - cbn [fst]. apply sh_set_other; exact Hn.
+  - destruct (set_all true kvs []) as [f ok]. destruct ok; cbn [fst]; [apply sh_set_other; exact Hn|reflexivity].
 Qed.
 
 (* store time advances change no share at all *)
@@ -357,6 +365,9 @@ Proof.
   intros (Hg & Hnd & Hp). split; [apply no_ghostb_fdel; exact Hg|]. split; [apply nodup_fdel; exact Hnd|apply public_fdel; exact Hp].
 Qed.
 
+Lemma okf_nil : okf [].
+Proof. split; [reflexivity|]. split; [constructor | intros k []]. Qed.
+
 Lemma okf_step s o w : okf (fl (sh w s)) -> okf (fl (sh w (fst (step s o)))).
 Proof.
   intros Hok. destruct (op_share o) as [w0|] eqn:Eo; [|rewrite (clock_ops_keep_shares _ _ _ Eo); exact Hok].
@@ -379,10 +390,12 @@ Proof.
   - destruct (deck (sh w s)); cbn [fst]; [exact Hok|]. rewrite sh_set_same. exact Hok.
   - destruct e; cbn [fst]; [|exact Hok]. rewrite sh_set_same. exact Hok.
   - destruct (deck (sh w s)); cbn [fst]; [exact Hok|]. rewrite sh_set_same. exact Hok.
+  - cbn [fst]. rewrite sh_set_att. exact Hok.
+  - cbn [fst]. rewrite sh_set_att. exact Hok.
+  - cbn [fst]. rewrite sh_set_same. exact Hok.
+  - pose proof (okf_set_all kvs _ okf_nil) as H. destruct (set_all true kvs []) as [f ok].
+    destruct ok; cbn [fst] in *; [rewrite sh_set_same; exact H|exact Hok].
 Qed.
-
-Lemma okf_nil : okf [].
-Proof. split; [reflexivity|]. split; [constructor | intros k []]. Qed.
 
 Lemma okf_run_from ops : forall s, (forall w, okf (fl (sh w s))) -> forall w, okf (fl (sh w (run_from s ops))).
 Proof.
@@ -457,6 +470,21 @@ Proof.
     apply IH. apply (okf_setattr _ _ _ _ Hok E).
 Qed.
 
+Lemma set_all_ok_iff kvs : forall f, public f ->
+  snd (set_all true kvs f) = forallb (fun kv => ident_pub true (fst kv)) kvs.
+Proof.
+  induction kvs as [|[k v] r IH]; intros f Hp; [reflexivity|]. cbn [set_all forallb fst].
+  destruct (setattr true k v f) as [f2|] eqn:E.
+  - rewrite (IH _ (public_setattr _ _ _ _ Hp E)).
+    assert (Hk : ident_pub true k = true).
+    { unfold setattr in E. destruct (fget k f) as [[x|]|] eqn:Eg.
+      - apply Hp. apply (fget_in _ _ _ Eg).
+      - destruct (ident_pub true k); [reflexivity|discriminate].
+      - destruct (ident_pub true k); [reflexivity|discriminate]. }
+    rewrite Hk. reflexivity.
+  - unfold setattr in E. destruct (fget k f) as [[x|]|]; try discriminate; destruct (ident_pub true k); try discriminate; reflexivity.
+Qed.
+
 Lemma fields_refine s o w : okf (fl (sh w s)) -> op_share o = Some w ->
   live (fl (sh w (fst (step s o)))) = a_fstep (live (fl (sh w s))) o.
 Proof.
@@ -481,6 +509,13 @@ Proof.
   - destruct (deck (sh w s)); cbn [fst]; [reflexivity|]. rewrite sh_set_same. reflexivity.
   - destruct e; cbn [fst]; [|reflexivity]. rewrite sh_set_same. reflexivity.
   - destruct (deck (sh w s)); cbn [fst]; [reflexivity|]. rewrite sh_set_same. reflexivity.
+  - cbn [fst]. rewrite sh_set_att. reflexivity.
+  - cbn [fst]. rewrite sh_set_att. reflexivity.
+  - cbn [fst]. rewrite sh_set_same. reflexivity.
+  - pose proof (set_all_ok_iff kvs [] (fun k H => match H with end)) as Hokk.
+    pose proof (live_set_all kvs [] okf_nil) as Hl.
+    destruct (set_all true kvs []) as [f ok]. cbn [fst snd] in *. rewrite <- Hokk.
+    destruct ok; cbn [fst]; [rewrite sh_set_same; exact Hl|reflexivity].
 Qed.
 
 (* --------------------------------------------------- laws of the abstract ordered map *)
@@ -586,6 +621,10 @@ Proof.
   - cbn [fst]. rewrite sh_set_same. reflexivity.
   - destruct (setattr true k v (fl (sh w s))); cbn [fst]; [rewrite sh_set_same|]; reflexivity.
   - destruct (delattr true k (fl (sh w s))); cbn [fst]; [rewrite sh_set_same|]; reflexivity.
+  - cbn [fst]. rewrite sh_set_att. reflexivity.
+  - cbn [fst]. rewrite sh_set_att. reflexivity.
+  - cbn [fst]. rewrite sh_set_same. reflexivity.
+  - destruct (set_all true kvs []) as [f ok]. destruct ok; cbn [fst]; [rewrite sh_set_same|]; reflexivity.
 Qed.
 
 Lemma cur_istep i o : cur (istep i o) = fst (step (cur i) o).
@@ -734,6 +773,10 @@ Proof.
   - destruct (sstamp s) as [t|] eqn:Et; cbn [fst]; [|rewrite Et; repeat split; assumption].
     cbn [shT sstamp]. unfold tick. rewrite H2. cbn. repeat split. exact H3.
   - cbn [fst shT sstamp]. unfold tick. rewrite H2. cbn. repeat split. exact H3.
+  - cbn [fst]. destruct w; cbn; repeat split; assumption.
+  - cbn [fst]. destruct w; cbn; repeat split; assumption.
+  - cbn [fst]. apply Hset.
+  - destruct (set_all true kvs []) as [f ok]. destruct ok; cbn [fst]; [apply Hset|repeat split; assumption].
 Qed.
 
 Lemma time_inv_run t0 ops : time_inv (run t0 ops).
@@ -741,4 +784,74 @@ Proof.
   unfold run. assert (H : forall s, time_inv s -> time_inv (run_from s ops)).
   { induction ops as [|o ops IH]; intros s Hs; [exact Hs|]. cbn. apply IH. apply time_inv_step. exact Hs. }
   apply H. unfold time_inv. cbn. repeat split.
+Qed.
+
+(* ----------------------------------------------- attachment, data setter, explicit stamp *)
+Lemma att_set_sh w x w' s : att w' (set_sh w x s) = att w' s.
+Proof. destruct w, w'; reflexivity. Qed.
+
+Lemma setdata_stamps s w kvs : snd (step s (SetData w kvs)) = ROk ->
+  stamp (sh w (fst (step s (SetData w kvs)))) = store_stamp w s /\
+  live (fl (sh w (fst (step s (SetData w kvs))))) = a_set_all kvs [].
+Proof.
+  unfold step. cbn [step_gen]. pose proof (live_set_all kvs [] okf_nil) as Hl.
+  destruct (set_all true kvs []) as [f ok]. destruct ok; cbn [fst snd] in *; [intros _|discriminate].
+  rewrite sh_set_same. split; [reflexivity|exact Hl].
+Qed.
+Lemma setdata_rejected s w kvs : snd (step s (SetData w kvs)) <> ROk -> fst (step s (SetData w kvs)) = s.
+Proof.
+  unfold step. cbn [step_gen]. destruct (set_all true kvs []) as [f ok]. destruct ok; cbn [fst snd]; [congruence|reflexivity].
+Qed.
+
+Lemma forcestamp_sets s w t : stamp (sh w (fst (step s (ForceStamp w t)))) = Some t /\
+  fl (sh w (fst (step s (ForceStamp w t)))) = fl (sh w s) /\ att w (fst (step s (ForceStamp w t))) = att w s.
+Proof. unfold step. cbn [step_gen fst]. rewrite sh_set_same, att_set_sh. repeat split. Qed.
+
+Lemma detach_attach s w :
+  att w (fst (step s (Detach w))) = false /\ att w (fst (step s (Attach w))) = true /\
+  (forall w', sh w' (fst (step s (Detach w))) = sh w' s /\ sh w' (fst (step s (Attach w))) = sh w' s) /\
+  (forall w', w <> w' -> att w' (fst (step s (Detach w))) = att w' s /\ att w' (fst (step s (Attach w))) = att w' s).
+Proof.
+  unfold step. cbn [step_gen fst]. repeat split; try (destruct w; reflexivity); try apply sh_set_att;
+    destruct w, w'; try reflexivity; congruence.
+Qed.
+
+Definition is_attach_op (o : op) : bool := match o with Detach _ | Attach _ => true | _ => false end.
+
+Lemma att_frame s o w : is_attach_op o = false -> att w (fst (step s o)) = att w s.
+Proof.
+  intros H. destruct o; try discriminate; unfold step; cbn [step_gen]; try reflexivity.
+  - destruct (setattr true value_key v (fl (sh w0 s))); cbn [fst]; [apply att_set_sh|reflexivity].
+  - destruct (set_all true kvs (fl (sh w0 s))) as [f ok]. destruct ok; cbn [fst]; apply att_set_sh.
+  - destruct (set_all true kvs (fl (sh w0 s))) as [f ok]. cbn [fst]; apply att_set_sh.
+  - destruct (create_all true kvs (fl (sh w0 s)) false) as [[f upd] ok]. destruct ok; cbn [fst]; apply att_set_sh.
+  - cbn [fst]. apply att_set_sh.
+  - destruct (setattr true k v (fl (sh w0 s))); cbn [fst]; [apply att_set_sh|reflexivity].
+  - destruct (delattr true k (fl (sh w0 s))); cbn [fst]; [apply att_set_sh|reflexivity].
+  - cbn [fst]. apply att_set_sh.
+  - destruct (deck (sh w0 s)); cbn [fst]; [reflexivity|apply att_set_sh].
+  - destruct e; cbn [fst]; [apply att_set_sh|reflexivity].
+  - destruct (deck (sh w0 s)); cbn [fst]; [reflexivity|apply att_set_sh].
+  - destruct (sstamp s); cbn [fst]; destruct w; reflexivity.
+  - cbn [fst]. apply att_set_sh.
+  - destruct (set_all true kvs []) as [f ok]. destruct ok; cbn [fst]; [apply att_set_sh|reflexivity].
+Qed.
+
+(* NO STAMP WITHOUT A STORE: on a share that does not reference a store, every stamping operation
+   leaves the stamp None, whatever stamp the share carried before *)
+Lemma no_stamp_without_store_l s w : att w s = false ->
+  (forall v, stamp (sh w (fst (step s (SetValue w v)))) = None) /\
+  (forall kvs, snd (step s (Update w kvs)) = ROk -> stamp (sh w (fst (step s (Update w kvs)))) = None) /\
+  (forall kvs, snd (step s (SetData w kvs)) = ROk -> stamp (sh w (fst (step s (SetData w kvs)))) = None) /\
+  (stamp (sh w (fst (step s (StampNow w)))) = None /\ snd (step s (StampNow w)) = RVal None) /\
+  (forall kvs, snd (step s (Create w kvs)) = ROk ->
+     forallb (fun kv => has (fst kv) (fl (sh w s))) kvs = false -> stamp (sh w (fst (step s (Create w kvs)))) = None).
+Proof.
+  intros Ha. assert (Hs : store_stamp w s = None) by (unfold store_stamp; rewrite Ha; reflexivity).
+  split; [|split; [|split; [|split]]].
+  - intros v. rewrite (proj2 (setvalue_stamps s w v)). exact Hs.
+  - intros kvs H. rewrite (update_stamps s w kvs H). exact Hs.
+  - intros kvs H. rewrite (proj1 (setdata_stamps s w kvs H)). exact Hs.
+  - destruct (stampnow_stamps s w) as [H1 H2]. rewrite H1, H2, Hs. split; reflexivity.
+  - intros kvs H Hf. pose proof (create_stamps_iff_added_l s w kvs H) as Hc. rewrite Hf in Hc. rewrite Hc. exact Hs.
 Qed.
